@@ -295,3 +295,10 @@ def run(ctx):
         for ll in ((1, 3) if q else (1, 2, 3, 5, 8, 13)):
             tts = [rng.getrandbits(1 << N) for _ in range(3)]
             run_one(ctx, opname, tts, 0, natural=ll)
+    # a decorated call whose RETRY (after the served request) raises a genuine error:
+    # the caller sees that error and reordering is still enabled afterwards
+    from . import C17
+    for n in (2, 3, 4):
+        for kind in ('undeclared', 'syntax'):
+            for _ in range(1 if q else 6):
+                C17.failed_retry(ctx, n, kind, P='C09')
